@@ -446,7 +446,9 @@ func runC02(env *Env) error {
 			`{"type":"application/vnd.lime.collection+json","content":{"itemType":%s,"items":["x"]}}`,
 			`{"method":"set","uri":"/x","type":%s,"resource":"x"}`,
 		} {
-			addBytes([]byte(fmt.Sprintf(tmpl, q)), "media-type-string")
+			if t, err := parseJ([]byte(fmt.Sprintf(tmpl, q))); err == nil {
+				addTree(t, "media-type-string") // members sorted: inside the model's domain
+			}
 		}
 	})
 
